@@ -51,7 +51,9 @@ FlatFrom(k) == IF k > NL THEN <<>> ELSE LineEvents(Tr.lines[k]) \o FlatFrom(k + 
 
 Lim(a) == Tr.lim[a]
 SeqSet(s) == {s[m] : m \in 1..Len(s)}
-MaxOf(S) == CHOOSE j \in S : \A m \in S : m <= j
+\* (every operator below is total on whatever was recorded: verdicts never depend on an execution
+\* having the expected shape; 0 stands for "no such event")
+MaxOf(S) == IF S = {} THEN 0 ELSE CHOOSE j \in S : \A m \in S : m <= j
 Idx(F, i, K, a) == {j \in 1..(i - 1) : F[j].k \in K /\ F[j].a = a}
 AnyAlive(ts) == \E m \in 1..Len(ts) : ts[m].s = "alive"
 OfActor(ts, a) == SelectSeq(ts, LAMBDA e : e.a = a)
@@ -64,8 +66,10 @@ CancelsBetween(F, p, i, a) == {j \in (p + 1)..(i - 1) : F[j].k \in {"cancel", "s
 ErrOf(e) == ErrName(e.n, e.s)
 \* errors (not cancellations) of the finished tasks listed in ts
 TaskErrs(ts) == {ErrOf(ts[m]) : m \in {q \in 1..Len(ts) : ts[q].s \in {"exc", "base"}}}
-MinOf(S) == CHOOSE j \in S : \A m \in S : j <= m
-NextSnap(F, i) == F[CHOOSE j \in (i + 1)..Len(F) : F[j].k = "snap" /\ \A m \in (i + 1)..(j - 1) : F[m].k # "snap"]
+MinOf(S) == IF S = {} THEN 0 ELSE CHOOSE j \in S : \A m \in S : j <= m
+NextSnapIdx(F, i) == MinOf({j \in (i + 1)..Len(F) : F[j].k = "snap"})
+NoSnap == [k |-> "snap", a |-> 0, snap |-> [a \in Actors |-> [isr |-> FALSE, nt |-> -1, ts |-> <<>>]], idle |-> FALSE, pumped |-> FALSE]
+NextSnap(F, i) == IF NextSnapIdx(F, i) = 0 THEN NoSnap ELSE F[NextSnapIdx(F, i)]
 Pending(F, i, call, ret, a) == Cardinality(Idx(F, i, {call}, a)) > Cardinality(Idx(F, i, {ret}, a))
 
 EnterChecks(F, i) ==
@@ -129,15 +133,16 @@ RetChecks(F, i) ==
 \* call (pumped snapshot j1; the tasks are those of the snapshot before it); same cause predicate.
 RunRetChecks(F, i) ==
     LET q == MaxOf(Idx(F, i, {"run_call"}, 0))
-        j1 == CHOOSE j \in (q + 1)..i : F[j].k = "snap" /\ F[j].pumped /\ \A m \in (q + 1)..(j - 1) : ~(F[m].k = "snap" /\ F[m].pumped)
-        j0 == MaxOf({j \in q..(j1 - 1) : F[j].k = "snap"})
+        j1 == MinOf({j \in (q + 1)..(i - 1) : F[j].k = "snap" /\ F[j].pumped})   \* 0: run() returned before any iteration
+        j0 == IF j1 = 0 THEN 0 ELSE MaxOf({j \in (q + 1)..(j1 - 1) : F[j].k = "snap"})
     IN
     \A a \in Actors :
         LET ts == OfActor(F[i].ts, a)
-            nb == Len(F[j0].snap[a].ts)
+            nb == IF j0 = 0 THEN 0 ELSE Len(F[j0].snap[a].ts)
             alive == {m \in 1..Len(ts) : ts[m].s = "alive"}
             restarted == \E j \in Fresh(F, i, a) : j > q /\ F[j].c # "run"
-            dev == /\ \A m \in alive : m > nb
+            dev == /\ j0 # 0
+                   /\ \A m \in alive : m > nb
                    /\ \E m \in 1..Len(ts) : m <= nb /\ ts[m].s \notin {"alive", "ret"}
         IN Check(alive = {} \/ restarted, "C10.RunReturnsIffAllFinished", <<"run() returned while actor", a, "is running", F[i].ts>>,
                  IF dev THEN <<"Dev_LateTaskAbandoned">> ELSE <<>>)
